@@ -238,12 +238,14 @@ followup:
         rc = cif_container_set_value(b2, u"_f", nullptr); cif_container_free(b2);
         if (rc != CIF_OK) FAILMSG(std::string("after the iteration cif_container_set_value returned ") + cm::code_name(rc));
         // scalar loop capacity: a packet can be added iff the loop now holds none
-        if (scalar) {
+        // (an ordinary loop takes further packets whatever was removed through the iterator: two of them, so that a packet counter reset
+        // by the removal would collide with a surviving packet's number at the latest on the second)
+        for (int round = 0; round < (scalar ? 1 : 2); round++) {
             cif_packet_tp *p = nullptr; std::vector<UChar *> np; for (auto &n : ml.names) np.push_back((UChar *) n.c_str()); np.push_back(nullptr);
             if (cif_packet_create(&p, np.data()) != CIF_OK) FAILMSG("packet_create");
             rc = cif_loop_add_packet(lh, p); cif_packet_free(p);
-            int want = cur.empty() ? CIF_OK : CIF_RESERVED_LOOP;
-            if (rc != want) FAILMSG(std::string("afterwards adding a packet to the scalar loop (holding ") + std::to_string(cur.size()) + " packet) returned " + cm::code_name(rc) + ", expected " + cm::code_name(want));
+            int want = (!scalar || cur.empty()) ? CIF_OK : CIF_RESERVED_LOOP;
+            if (rc != want) FAILMSG(std::string("afterwards adding a packet to the ") + (scalar ? "scalar " : "") + "loop (holding " + std::to_string(cur.size()) + " packet(s)) returned " + cm::code_name(rc) + ", expected " + cm::code_name(want));
             if (rc == CIF_OK) cur.push_back(std::vector<Value>(ml.names.size(), Value::unk()));
         }
         cif_pktitr_tp *it2 = nullptr;
